@@ -1,6 +1,6 @@
 CONSTANTS
   Universe <- FullUniverse
-  MaxLen = 5
+  MaxLen = 4
   AnyOrder = TRUE
   InitMatrix = FALSE
   ScriptUniverse = {}
